@@ -9,7 +9,7 @@ import (
 
 func init() {
 	register(&Property{ID: "C19", Run: runC19,
-		Explain: "Trace faithfulness decided as tables, sibling agreement and pairing: (R19.1) every pubsubTracer method that builds a TraceEvent sets Type to the enum constant matching its own name and sets exactly the payload field of the same name (table derived from the source on every run), stamps the local peer ID, reaches tracer.Trace on every path with a tracer attached, fills Join/Leave/Graft/Prune/stream payloads from its own parameters, and forwards to the same-named method of every raw tracer (loops without early exit); (R19.2) every implementation of PubSubRouter in the module traces Join as Join and Leave as Leave (never the opposite), and outbound-stream events under their own names; gossipsub traces JOIN only on the not-yet-joined edge and LEAVE only on the joined edge (alternation); (R19.3) every mesh insert is paired with tracer.Graft and every mesh delete with tracer.Prune for the same peer and topic, the one exception being OnClosedOutboundStream, which is paired with the closed-stream event; (R19.4) at every rpcQueue push the error edge reaches DropRPC (and never SendRPC) and the success edge reaches SendRPC (and never DropRPC), with the pushed RPC as operand; (R19.5) DELIVER_MESSAGE is emitted only by publishMessage(+Batch), once per message on every path, and PUBLISH_MESSAGE only and always by ValidateLocal; (R19.6) the file/remote tracer buffer and closed flag are accessed under their mutex. NOT decided: lossy remote tracer, file encodings, ordering between events of different goroutines.",
+		Explain: "Trace faithfulness decided as tables, sibling agreement and pairing: (R19.1) every pubsubTracer method that builds a TraceEvent sets Type to the enum constant matching its own name and sets exactly the payload field of the same name (table derived from the source on every run), stamps the local peer ID, reaches tracer.Trace on every path with a tracer attached, fills Join/Leave/Graft/Prune/stream payloads from its own parameters, and forwards to the same-named method of every raw tracer (loops without early exit); (R19.2) every implementation of PubSubRouter in the module traces Join as Join and Leave as Leave (never the opposite), and outbound-stream events under their own names; gossipsub traces JOIN only on the not-yet-joined edge and LEAVE only on the joined edge, and (shared R05.1/R05.2) the routers' Join/Leave are called exactly when the first local interest appears / the last one goes away (alternation); (R19.3) every mesh insert is paired with tracer.Graft and every mesh delete with tracer.Prune for the same peer and topic, the one exception being OnClosedOutboundStream, which is paired with the closed-stream event; (R19.4) at every rpcQueue push the error edge reaches DropRPC (and never SendRPC) and the success edge reaches SendRPC (and never DropRPC), with the pushed RPC as operand; (R19.5) DELIVER_MESSAGE is emitted only by publishMessage(+Batch), once per message on every path, and PUBLISH_MESSAGE only and always by ValidateLocal; (R19.6) the file/remote tracer buffer and closed flag are accessed under their mutex. NOT decided: lossy remote tracer, file encodings, ordering between events of different goroutines.",
 		Assume:  []string{"generated enum names follow protoc-gen-gogo conventions (UPPER_SNAKE of the message name)"},
 		Mutants: []Mutant{
 			{Name: "randomsub-leave-traces-join", File: "randomsub.go", Old: "func (rs *RandomSubRouter) Leave(topic string) {\n\trs.tracer.Leave(topic)", New: "func (rs *RandomSubRouter) Leave(topic string) {\n\trs.tracer.Join(topic)", Expect: "R19.2"},
@@ -387,6 +387,20 @@ func runC19(c *RuleCtx) {
 		if n < 2 {
 			c.Undecided("R19.6", fld, "accesses", nil, "fewer accesses than known")
 		}
+	}
+	// JOIN/LEAVE alternate only if the routers' Join and Leave are themselves called alternately (floodsub and
+	// randomsub trace unconditionally): the interest bookkeeping that guarantees it is decided under C05 and
+	// re-evaluated here (shared obligations, same keys).
+	{
+		sub := &RuleCtx{P: c.P, Prop: c.Prop, Min: map[string]int{}}
+		runC05(sub)
+		for _, o := range sub.Obs {
+			if o.Rule == "R05.1" || o.Rule == "R05.2" {
+				c.Obs = append(c.Obs, o)
+			}
+		}
+		c.Min["R05.1"] = 11
+		c.Min["R05.2"] = 18
 	}
 	c.Min["R19.1"] = 60
 	c.Min["R19.2"] = 16
